@@ -1490,6 +1490,32 @@ def gen_simd_kernels(repo):
         sk = ' ; '.join('%s(%s)' % (c, ' '.join(a.split())) for c, a in calls if not c.endswith('set_epi8'))
         out += '/-- %s: %s: every intrinsic / helper call with its arguments, in textual order -/\n' % (f162, fn)
         out += 'def u16x2_sse4_%s_skeleton : String := "%s"\n\n' % ('four_rows' if tag else 'one_row', sk.replace('"', '\\"'))
+    # three-channel 16-bit images (U16x3), SSE4.1: masks rg0 / rg1 / bb of both kernels, call sequences and the width guard
+    f163 = 'src/convolution/u16x3/sse4.rs'
+    with open(os.path.join(repo, f163)) as fh:
+        src163 = fh.read()
+    for fn, tag in (('horiz_convolution_one_row', ''), ('horiz_convolution_four_rows', 'four_')):
+        m = re.search(r'unsafe fn %s\(.*?\n\}' % fn, src163, re.S)
+        if not m:
+            raise TranslationError("%s: %s not found" % (f163, fn))
+        body = re.sub(r'//[^\n]*', '', m.group(0))
+        body = re.sub(r'/\*.*?\*/', '', body, flags=re.S)
+        masks = []
+        for a in re.finditer(r'let (\w+)_shuffle = _mm_set_epi8\(([^;]*?)\);', body, re.S):
+            vals = [int(x) for x in a.group(2).replace('\n', ' ').split(',') if x.strip()]
+            if len(vals) != 16:
+                raise TranslationError("%s: mask %s does not have 16 entries" % (f163, a.group(1)))
+            masks.append((a.group(1), list(reversed(vals))))
+        if [n for n, _ in masks] != ['rg0', 'rg1', 'bb']:
+            raise TranslationError("%s: %s: expected the masks rg0, rg1, bb, found %s" % (f163, fn, [n for n, _ in masks]))
+        for n, v in masks:
+            out += '/-- %s: %s: shuffle mask %s_shuffle, byte 0 first -/\n' % (f163, fn, n)
+            out += 'def u16x3_sse4_%s%s : List Int := [%s]\n\n' % (tag, n, ', '.join(str(x) if x >= 0 else '(%d)' % x for x in v))
+        calls = re.findall(r'\b(_mm_\w+(?:::<\w+>)?|simd_utils::\w+|chunks_exact|remainder|get_unchecked|normalizer\.clip|normalizer\.precision)\(([^()]*(?:\([^()]*\)[^()]*)*)\)', body)
+        sk = ' ; '.join('%s(%s)' % (c, ' '.join(a.split())) for c, a in calls if not c.endswith('set_epi8'))
+        guards = [' '.join(x.split()) for x in re.findall(r'(let end_x = [^;]*|if width - end_x >= \d+|let width = [^;]*|for &k in coeffs)', body)]
+        out += '/-- %s: %s: every intrinsic / helper call with its arguments, in textual order, and the width guard -/\n' % (f163, fn)
+        out += 'def u16x3_sse4_%s_skeleton : String := "%s | %s"\n\n' % ('four_rows' if tag else 'one_row', sk.replace('"', '\\"'), ' ; '.join(guards))
     # the vertical pass for 8-bit components (all four u8 pixel types)
     f = 'src/convolution/vertical_u8/sse4.rs'
     with open(os.path.join(repo, f)) as fh:
